@@ -15,6 +15,7 @@ one() {
   ${VCHECK:-bin/vcheck} -repo $wt -all -out $out/$id -evidence-dir $out/$id/evidence > $out/$id.log 2>&1
   rc=$?
   git -C /repo worktree remove --force $wt >/dev/null 2>&1; rm -rf $wt
+  rm -rf $out/$id/smt $out/$id/evidence   # ~3 GB per run
   n=$(grep -c '^VIOLATION' $out/$id.log)
   if [ "$n" = "0" ] && [ $rc -eq 0 ]; then echo "$id quiet"; else echo "$id ALARM rc=$rc: $(grep '^VIOLATION\|ENGINE' $out/$id.log | sed 's/.*replays\///' | cut -c1-90 | sort -u | head -4 | tr '\n' ';')"; fi
 }
